@@ -118,6 +118,21 @@ def rule_escape(ctx, ts, px):
         if returns_doc:
             taint_filters.add(name[len("filter_"):])
     ctx.unit("python_filters_returning_raw_doc", sorted(taint_filters))
+    # filters that hand out free text escaped for *text* context only (quotes left alone), and filters that mark their result as
+    # Markup (a later `| e` does nothing to it): such a value is safe between tags, not inside an attribute
+    text_only, marked = set(), set()
+    for name, f in m.funcs.items():
+        if not name.startswith("filter_") or not any(isinstance(n_, ast.Attribute) and n_.attr == "doc" for n_ in ast.walk(f.node)):
+            continue
+        for c in ast.walk(f.node):
+            if isinstance(c, ast.Call) and ast.unparse(c.func) in ("html.escape", "escape") and any(isinstance(x, ast.Attribute) and x.attr == "doc" for x in ast.walk(c)):
+                if any(k.arg == "quote" and isinstance(k.value, ast.Constant) and k.value.value is False for k in c.keywords) or \
+                        (len(c.args) > 1 and isinstance(c.args[1], ast.Constant) and c.args[1].value is False):
+                    text_only.add(name[len("filter_"):])
+            if isinstance(c, ast.Call) and ast.unparse(c.func).split(".")[-1] == "Markup":
+                marked.add(name[len("filter_"):])
+    doc_filters = {name[len("filter_"):] for name, f in m.funcs.items() if name.startswith("filter_")
+                   and any(isinstance(n_, ast.Attribute) and n_.attr == "doc" for n_ in ast.walk(f.node))}
     n = 0
     for t in ts.of_lang("html", "templates"):
         auto = autoescape_on(px, t.name)
@@ -130,9 +145,28 @@ def rule_escape(ctx, ts, px):
         for node, stack in j2front.walk(t.ast):
             if not isinstance(node, N.Output):
                 continue
+            before = ""
             for e in node.nodes:
                 if isinstance(e, N.TemplateData):
+                    before += e.data
                     continue
+                # attribute context: the static text since the last `<` leaves a quote open
+                tail = before[before.rfind("<"):] if "<" in before else ""
+                in_attr = bool(tail) and ">" not in tail and (tail.count('"') % 2 == 1 or tail.count("'") % 2 == 1)
+                before += "X"
+                for src in [x for x in [e] + list(e.find_all(N.Filter)) if isinstance(x, N.Filter) and x.name in doc_filters and x.name not in taint_filters]:
+                    # free text that the Python filter escaped itself
+                    n += 1
+                    if in_attr:
+                        ok = src.name not in text_only and not (src.name in marked and src.name in text_only)
+                        ok = ok and not (src.name in text_only)
+                    else:
+                        ok = True
+                    ctx.ob(R, t.rel, f"{xs(src)} in {{{{ {xs(e)} }}}} @ {j2front.construct_path(stack)}", ok,
+                           "escaped by the filter itself" if ok else
+                           f"`{src.name}` escapes its text with quote=False" + (" and marks it as Markup, so `| e` leaves it alone" if src.name in marked else "") +
+                           ": inside an attribute value a double quote in the DSDL comment ends the attribute and the rest of the comment is parsed as further attributes",
+                           getattr(e, "lineno", None))
                 for src in _tainted_sources(N, e, taint_filters, tainted_vars):
                     # a source used only as the test of a conditional expression is not output
                     if isinstance(e, N.CondExpr) and any(x is src for x in [e.test] + list(e.test.find_all(N.Node))):
@@ -476,7 +510,7 @@ def _is_permutation(px, f, pname, depth=0):
     return True, ""
 
 
-def rule_listing(ctx, px):
+def rule_listing(ctx, px, ts=None):
     R = "R-C20-LISTING"
     ctx.rule(
         R,
@@ -496,6 +530,33 @@ def rule_listing(ctx, px):
             raise AnalysisError(f"anchor changed: how {name} builds its result ({why})")
         ctx.ob(R, m.rel, f"{name} :: returns a permutation of its input", ok, why, f.node.lineno)
     ctx.floor(R, n, 2)
+    # ... and the templates walk the whole namespace tree: a macro that renders a namespace calls itself for every nested namespace -
+    # the loop over get_nested_namespaces() carries no filter and the recursive call sits under no condition.  A namespace that is
+    # skipped (e.g. because it has no types of its own) takes its whole sub-tree off the page, ids included.
+    if ts is None:
+        return
+    N = ts.nodes
+    k = 0
+    for t in ts.of_lang("html", "templates"):
+        for mac in t.ast.find_all(N.Macro):
+            for node, stack in j2front.walk(mac):
+                if not (isinstance(node, N.For) and "get_nested_namespaces" in xs(node.iter)):
+                    continue
+                rec = [c for c in node.find_all(N.Call) if isinstance(c.node, N.Name) and c.node.name == mac.name]
+                if not rec:
+                    continue
+                k += 1
+                conds = []
+                if node.test is not None:
+                    conds.append(f"loop filter `{xs(node.test)}`")
+                for sub, st2 in j2front.walk(node):
+                    if any(sub is r_ for r_ in rec):
+                        conds += [f"`{e_}`" for e_, _p in j2front.facts(st2)]
+                ok = not conds
+                ctx.ob(R, t.rel, f"{mac.name} :: recurses into every nested namespace", ok,
+                       "" if ok else f"the recursion is subject to {conds}: a namespace that fails it is left out together with everything below it - the types there get "
+                       "no element and no id on the page, while links to them are still generated", node.lineno)
+    ctx.floor(R + ":recursion", k, 2)
 
 
 def run(ctx):
@@ -513,4 +574,4 @@ def run(ctx):
     rule_escape(ctx, ts, px)
     rule_balance(ctx, ts)
     rule_anchor(ctx, ts, px)
-    rule_listing(ctx, px)
+    rule_listing(ctx, px, ts)
